@@ -241,11 +241,11 @@ match & self . state {
 UnionState :: Accumulator ( sketch ) => {
 proof {
 lemma_k_bound ( self . lg_k ) ;
-}
-if sketch . is_empty ( ) {
-proof {
+if sketch . num_coupons == 0 {
 lemma_lin_zero ( self . um ( ) , 64 * self . k ( ) ) ;
 }
+}
+if sketch . is_empty ( ) {
 CpcSketch :: with_seed ( self . lg_k , self . seed ) }
 else {
 let ghost a = * sketch ;
